@@ -7,10 +7,10 @@ LEAN = os.path.join(os.path.dirname(HERE), "lean")
 NOT_YET = {
     "C01": ["the hand-unrolled sqlite3 chained reader is modelled by its format-level reader (agreement with the C is sampled by the correspondence, not proved)"],
     "C04": ["uniqueness-in-length-class / shortest-encoding stated on the decoder for chained, chained-simple and the split families (tagged has tagged_canonical); Elias gamma/delta bit definitions (carried with the Elias model under C02)"],
-    "C02": ["group, dictionary, Elias gamma/delta, BP128 (4 forms), PFOR round trips; RLE-with-header; FOR block reader, RLE/PFOR/group random access: model = code on the correspondence stream and the monitors check the implementation, theorem not yet written"],
-    "C03": ["group/dict exactness, Elias, BP128, PFOR, adaptive, float bounds: monitors + correspondence only so far"],
-    "C13": ["group, RLE-with-header, BP128, PFOR, adaptive capacity theorems: monitors + correspondence only so far (FOR, RLE, dictionary DecodeInto and both Elias decoders are proved)"],
-    "C16": ["PFOR, group, Elias, BP128, adaptive, float metadata: monitors + correspondence only so far"],
+    "C02": ["BP128 (4 forms) round trips and the FOR block reader: model = code on the correspondence stream and the monitors check the implementation, theorem not yet written (delta, zigzag, FOR + random access, RLE ± header + random access, group + random access, dictionary, Elias gamma/delta, PFOR at every threshold ARE proved)"],
+    "C03": ["BP128, adaptive, float bounds: monitors + correspondence only so far (delta, RLE, FOR, group, dictionary, Elias, PFOR are proved)"],
+    "C13": ["BP128, PFOR (takes no capacity), adaptive capacity theorems: monitors + correspondence only so far (FOR, RLE ± header, group, dictionary DecodeInto and both Elias decoders are proved)"],
+    "C16": ["Elias, BP128, adaptive, float metadata: monitors + correspondence only so far (FOR, RLE, group, PFOR are proved)"],
     "C05": [],
     "C11": [],
     "C17": ["that the compiled codecs access nothing outside their arguments (the theorem's premise) and race freedom under the real "
@@ -24,7 +24,7 @@ NOT_YET = {
             "that the fuel of runCountAux suffices is tied by the correspondence, not proved"],
     "C06": ["losslessness of the PFOR, DICT and BITMAP arms (their codecs have no round-trip theorem yet) and hence the unconditional adaptive_roundtrip"],
     "C07": ["array-level framing round trip (decode (encode ds) = map roundTripOne ds) is not a theorem: encode bytes are compared with the model and the decoded values are checked on the implementation"],
-    "C10": ["bit cells (set/clear/toggle) as theorems: model + monitors + correspondence only; half-float cells not covered (F16C-only code)"],
+    "C10": ["half-float cells not covered (F16C-only code)"],
     "C08": ["add-range fast path (single run on an empty set), clone and serialise/deserialise as theorems; that iteration is ascending and duplicate free (membership of `members` IS proved, and the four set operations are); the three containers are abstracted to one bit set in the model (their equivalence with the C is sampled by the histories)"],
     "C09": ["sorted insert / positional insert / delete / delete-member as refinement of a reference multiset (the shifting loops): checked by the harness against a reference array and by the correspondence, theorem not yet written; get/set isolation, lower-bound search, incr/half are proved"],
     "C12": [],
